@@ -36,6 +36,10 @@ MUT = [
  ("C04", "qkeras/quantizers.py", "    qx = K.mean(tf.math.multiply(x, q), axis=axis, keepdims=True)\n    qq = K.mean(tf.math.multiply(q, q), axis=axis, keepdims=True)\n  return qx, qq", "    qx = K.mean(tf.math.multiply(x, q), axis=axis[:-1], keepdims=True)\n    qq = K.mean(tf.math.multiply(q, q), axis=axis[:-1], keepdims=True)\n  return qx, qq", "rank4"),
  ("C04", "qkeras/quantizers.py", "  scale = K.clip(scale, min_value=min_po2, max_value=max_po2)\n  return scale", "  scale = K.clip(scale, min_value=max_po2, max_value=min_po2)\n  return scale", "bounded"),
  ("C04", "qkeras/quantizers.py", "    scale = qx / (qq + K.epsilon())\n    if alpha == \"auto_po2\":", "    scale = qx / (qq + 1.0)\n    if alpha == \"auto_po2\":", "binary.__call__/alpha-auto"),
+ ("C05", "qkeras/quantizers.py", "      z = tf.sign(x) * tf.where(mask, v, tf.ones_like(v) * levels / 2)\n\n      # z is an integer number", "      z = tf.sign(x) * tf.where(mask, v, tf.ones_like(v) * levels)\n\n      # z is an integer number", "quantized_bits.__call__"),
+ ("C05", "qkeras/quantizers.py", "        scale = (K.max(abs(x), axis=axis, keepdims=True) * 2) / levels\n", "        scale = (K.max(abs(x), axis=axis[:-1], keepdims=True) * 2) / levels\n", "rank4"),
+ ("C05", "qkeras/quantizers.py", "      if not self.freeze_scale:\n        self.scale = scale\n      xq = scale * xq", "      if not self.freeze_scale:\n        self.scale = scale / m\n      xq = scale * xq", "quantized_bits.__call__"),
+ ("C05", "qkeras/quantizers.py", "      v = tf.floor(tf.abs(x) / scale + 0.5)\n      mask = v < levels / 2\n      z = tf.sign(x) * tf.where(mask, v, tf.ones_like(v) * levels / 2)\n\n      # z is an integer", "      v = tf.abs(x) / scale + 0.5\n      mask = v < levels / 2\n      z = tf.sign(x) * tf.where(mask, v, tf.ones_like(v) * levels / 2)\n\n      # z is an integer", "quantized_bits.__call__"),
  ("C13", "qkeras/utils.py", '  custom_objects["QGRU"] = QGRU\n', '', "class_QGRU"),
  ("C13", "qkeras/utils.py", "  qmodel.set_weights(model.get_weights())\n", "", "clone_model"),
  ("C13", "qkeras/qlayers.py", '        "kernel_quantizer": constraints.serialize(\n            self.kernel_quantizer_internal# Google internal code, commented out by copybara\n        ),\n        "bias_quantizer": constraints.serialize(\n            self.bias_quantizer_internal# Google internal code, commented out by copybara\n        ),\n        "kernel_initializer"', '        "bias_quantizer": constraints.serialize(\n            self.bias_quantizer_internal# Google internal code, commented out by copybara\n        ),\n        "kernel_initializer"', "QDense"),
